@@ -54,7 +54,57 @@ def canon(f):
     return g
 
 
-def content_diff(mode, twin, got):
+def unhex_text(f):
+    try:
+        return bytes.fromhex(f[1:]).decode('utf-8', 'replace') if f.startswith('h') else None
+    except ValueError:
+        return None
+
+
+def rendered_times(d):
+    """the text the sink received from PatternFormatter("%{time process}~%{time boot}~%{time hh:mm:ss.zzz}") -> (process ms, boot ms, clock text)"""
+    txt = unhex_text(d[9])
+    if txt is None:
+        return None
+    f = txt.split('~')
+    try:
+        return int(round(float(f[0]) * 1000)), int(round(float(f[1]) * 1000)), f[2]
+    except (ValueError, IndexError):
+        return None
+
+
+def time_diff(mode, twin, got, tcal, model_src):
+    """time-format runs: the time stamps the sink can see - steadyTime(), time() and the text rendered from them on the logger
+    thread - against the values captured at the call.  model_src = what the translated formatter reads for (process, boot):
+    'message' (lmsg.steadyTime()) is the case theorem C03_rendered_time_same_as_synchronous is about.
+    returns (what, detail dict) or None"""
+    r = rendered_times(got)
+    if r is None:
+        return 'the sink did not receive the text of the time formatter', {'formatted': got[9][:80]}
+    proc_ms, boot_ms, clock = r
+    own_ms = int(got[7]) // 10 ** 6
+    det = {'rendered_process_s': proc_ms / 1000.0, 'rendered_boot_s': boot_ms / 1000.0, 'message_steadyTime_ms': own_ms,
+           'boot_minus_process_ms': boot_ms - proc_ms, 'calibrated_boot_minus_process_ms': tcal, 'formatter_reads_translated': model_src}
+    if mode == 'logger' and '..' in twin[7]:
+        lo, hi = (int(x) // 10 ** 6 for x in twin[7].split('..'))
+        det['call_interval_steady_ms'] = [lo, hi]
+        if boot_ms > hi or boot_ms < lo:
+            return ('%%{time boot} reached the sink as %.3f s but the logging call ran in [%.3f, %.3f] s of the same clock: %d ms %s the call'
+                    % (boot_ms / 1000.0, lo / 1000.0, hi / 1000.0, boot_ms - hi if boot_ms > hi else lo - boot_ms,
+                       'AFTER the return of' if boot_ms > hi else 'before')), det
+    if boot_ms != own_ms:
+        return ('%%{time boot} reached the sink as %.3f s but steadyTime() of that very message is %.3f s (%+d ms)'
+                % (boot_ms / 1000.0, own_ms / 1000.0, boot_ms - own_ms)), det
+    if abs(boot_ms - proc_ms - tcal) > 1:
+        return ('%%{time process} reached the sink as %.3f s, %+d ms off what steadyTime() of the message gives (%%{time boot} = %.3f s, '
+                'process start = boot - %d ms)' % (proc_ms / 1000.0, tcal - (boot_ms - proc_ms), boot_ms / 1000.0, tcal)), det
+    iso = got[6].split('~')[-1]
+    if len(iso) >= 23 and clock != iso[11:23]:
+        return '%%{time hh:mm:ss.zzz} reached the sink as %s but time() of the message is %s' % (clock, iso), det
+    return None
+
+
+def content_diff(mode, twin, got, tfmt=0):
     """fields of the delivered message that differ from what a synchronous sink saw"""
     t, g = canon(twin), canon(got)
     bad = []
@@ -66,7 +116,13 @@ def content_diff(mode, twin, got):
             if not (lo <= int(gt[0]) <= hi) or tt[1:3] != gt[1:3]:
                 bad.append(k)
         elif mode == 'logger' and k == 7:
-            continue
+            # twin: the steady clock before the call .. after it returned
+            if '..' in t[7]:
+                lo, hi = (int(x) for x in t[7].split('..'))
+                if not (lo <= int(g[7]) <= hi):
+                    bad.append(k)
+        elif mode == 'logger' and k == 9 and tfmt:
+            continue            # rendered on the logger thread from the message's own time stamps: see time_diff
         elif t[k] != g[k]:
             bad.append(k)
     return bad
@@ -122,7 +178,7 @@ def order_oracles(ev, n, per, quotas=None):
 
 
 def run_one(impl, cfg, timeout=120, env=None):
-    line = '%s %d %d %d %d %d %d' % (cfg['mode'], cfg['n'], cfg['per'], cfg['seed'], cfg['perturb'], cfg['sinkdelay'], cfg.get('stall', 0))
+    line = '%s %d %d %d %d %d %d %d' % (cfg['mode'], cfg['n'], cfg['per'], cfg['seed'], cfg['perturb'], cfg['sinkdelay'], cfg.get('stall', 0), cfg.get('tfmt', 0))
     env = dict(env or {})
     if cfg.get('tz'):
         env['TZ'] = cfg['tz']       # a POSIX zone that is not UTC (no tz database needed): local time != UTC for the child
@@ -137,7 +193,7 @@ def gen_configs(chk, reps, total):
             for n in (1, 2, 4, 8, 16):
                 cfgs.append({'mode': mode, 'n': n, 'per': max(2, total // n), 'seed': chk.rng.randrange(1, 2 ** 31),
                              'perturb': chk.rng.choice([0, 1, 2, 2, 3]), 'sinkdelay': chk.rng.choice([0, 1, 2, 2]), 'stall': 0,
-                             'tz': chk.rng.choice(['DEMO-05:30', 'DEMO-05:30', 'XYZ+03', ''])})
+                             'tz': chk.rng.choice(['DEMO-05:30', 'DEMO-05:30', 'XYZ+03', '']), 'tfmt': chk.rng.choice([0, 1])})
     return cfgs
 
 
@@ -147,7 +203,7 @@ def special_configs(chk, reps):
     for _ in range(reps):
         for mode, n, per in (('relog', 2, 300), ('relog', 4, 150), ('drain', 2, 15)):
             cfgs.append({'mode': mode, 'n': n, 'per': per, 'seed': chk.rng.randrange(1, 2 ** 31), 'perturb': chk.rng.choice([0, 1]),
-                         'sinkdelay': 1 if mode == 'relog' else 0, 'stall': 0, 'tz': ''})
+                         'sinkdelay': 1 if mode == 'relog' else 0, 'stall': 0, 'tz': '', 'tfmt': 1 if mode == 'drain' else 0})
     return cfgs
 
 
@@ -156,13 +212,13 @@ def long_drain_configs(chk, thorough):
     draining + wait(3000) - a stop could apply): every message must still reach the sink, in order, on the logger thread"""
     shapes = [(16, 500)] + ([(80, 100), (32, 250)] if thorough else [])
     return [{'mode': 'drain', 'n': 2, 'per': per, 'seed': chk.rng.randrange(1, 2 ** 31), 'perturb': chk.rng.choice([0, 1]), 'sinkdelay': 0,
-             'stall': ms, 'tz': ''} for per, ms in shapes]
+             'stall': ms, 'tz': '', 'tfmt': 1} for per, ms in shapes]
 
 
 def stall_configs(chk, total, ms):
     """a stalled sink and a large backlog: the sink sleeps `ms` inside its first delivery while `total` messages are posted;
-    no logging call may wait for it"""
-    return [{'mode': mode, 'n': 4, 'per': total // 4, 'seed': chk.rng.randrange(1, 2 ** 31), 'perturb': 0, 'sinkdelay': 0, 'stall': ms}
+    no logging call may wait for it; the pipeline renders %{time process} / %{time boot} on the logger thread, up to `ms` after the call"""
+    return [{'mode': mode, 'n': 4, 'per': total // 4, 'seed': chk.rng.randrange(1, 2 ** 31), 'perturb': 0, 'sinkdelay': 0, 'stall': ms, 'tfmt': 1}
             for mode in ('bare', 'logger')]
 
 
@@ -209,13 +265,26 @@ def evaluate(chk, model, cfg, res, stats, report):
                    % (int(mc.group(1)) // 1000, cfg['stall'], n * per),
                    dict(cfg, kind='blocked_on_sink', max_call_ms=int(mc.group(1)) // 1000, backlog=n * per, header=hdr), 'blocked_on_sink')
     # --- content: every delivered message vs its synchronous twin
+    tfmt = cfg.get('tfmt', 0)
+    mt = re.search(r'tcal=(-?\d+)', hdr)
+    tcal = int(mt.group(1)) if mt else 0
+    stats['time_format_runs'] += 1 if tfmt else 0
     for k, p, i, w, d in asy:
         twin = tw.get((p, i))
         if twin is None:
             stats['kinds']['foreign'] = stats['kinds'].get('foreign', 0) + 1
             report('sink received a message nobody sent: producer %d index %d' % (p, i), dict(cfg, kind='foreign', delivered=d), 'foreign')
             break
-        bad = content_diff(cmode, twin, d)
+        td = time_diff(cmode, twin, d, tcal, stats['model_time_source']) if tfmt else None
+        stats['rendered_times_checked'] += 1 if tfmt else 0
+        if td:
+            stats['kinds']['timestamp'] = stats['kinds'].get('timestamp', 0) + 1
+            report('the time stamp a sink observes differs from the one the message was logged with: %s (message %d of producer %d, %s mode, '
+                   'delivery #%d of %d; PatternFormatter "%%{time process}~%%{time boot}~%%{time hh:mm:ss.zzz}" in the asynchronous pipeline)'
+                   % (td[0], i, p, mode, k, len(asy)),
+                   dict(cfg, kind='timestamp', producer=p, index=i, delivery=k, detail=td[0], **td[1]), 'timestamp')
+            break
+        bad = content_diff(cmode, twin, d, tfmt)
         if bad:
             stats['kinds']['content'] = stats['kinds'].get('content', 0) + 1
             report('delivered message differs from what a synchronous sink sees in field(s) %s (message %d of producer %d, %s mode)'
@@ -308,7 +377,14 @@ def run():
     stats = {'events': 0, 'deliveries': 0, 'kinds': {}, 'model_copies': 0, 'model_disagreements': 0, 'acceptor_runs': 0,
              'max_backlog': 0, 'runs_with_backlog': 0, 'null_ptr_msgs': 0, 'preformatted_msgs': 0,
              'stalled_sink_runs': 0, 'max_call_ms_while_sink_stalled': 0, 'fatal_msgs': 0, 'relog_runs': 0, 'drain_runs': 0,
-             'max_call_ms_during_drain': 0, 'nul_texts': 0, 'max_backlog_ms_at_reset': 0}
+             'max_call_ms_during_drain': 0, 'nul_texts': 0, 'max_backlog_ms_at_reset': 0,
+             'time_format_runs': 0, 'rendered_times_checked': 0, 'model_time_source': None}
+    # what the translated TimeToken reads for %{time process} / %{time boot} (the model's render_rel is evaluated with it)
+    _, ts_out, _ = vlib.run_lines(model, ['-'], ['tsrc'])
+    stats['model_time_source'] = (ts_out or ['?'])[0].strip()
+    if stats['model_time_source'] != 'process=message boot=message':
+        chk.broke('the translated time formatter does not render %%{time process} / %%{time boot} from the time stamp carried by the message: %s'
+                  % stats['model_time_source'], {'kind': 'time_source', 'model_time_source': stats['model_time_source']})
     reported = [0]
 
     def report(what, replay, kind):
@@ -341,6 +417,9 @@ def run():
                             'every 5th message null file/function, every 7th null category, all five message types incl. QtFatalMsg (fatal via '
                             'process()/Logger::processMessage directly), children run under non-UTC POSIX zones (TZ=DEMO-05:30 / XYZ+03), '
                             'the time is compared as msecs+timeSpec+offsetFromUtc+ISO text, send() and flush() entries must be on the logger thread, seeded perturbation at the schedule points, '
+                            'half of the runs with PatternFormatter("%{time process}~%{time boot}~%{time hh:mm:ss.zzz}") in the asynchronous pipeline: the rendered '
+                            'text must be what the message\'s own steadyTime()/time() give (bare: equal to the synchronous rendering; logger: inside the steady-clock '
+                            'interval of the call; the stalled-sink and drain runs render up to seconds after the call), '
                             'slow/fast sink, a burst worth 8 s of sink work queued when resetOwnThread() is called (every message must still be delivered), plus runs with a sink stalled for 1.5 s under a backlog of >= 10 400 messages (no call may wait for it); '
                             'non-trivial = at least two deliveries per producer',
                     'events_recorded': stats['events'], 'deliveries_compared_with_twin': stats['deliveries'],
@@ -354,6 +433,9 @@ def run():
                     'fatal_level_messages': stats['fatal_msgs'], 'texts_with_embedded_NUL': stats['nul_texts'],
                     'relogging_sink_runs': stats['relog_runs'], 'drain_runs': stats['drain_runs'], 'max_backlog_ms_queued_at_reset': stats['max_backlog_ms_at_reset'], 'max_call_ms_during_drain': stats['max_call_ms_during_drain'],
                     'tz_histogram': {z or 'inherited': sum(1 for c, _ in results if c.get('tz', '') == z) for z in ('DEMO-05:30', 'XYZ+03', '')},
+                    'time_format_runs': stats['time_format_runs'], 'rendered_time_texts_compared': stats['rendered_times_checked'],
+                    'time_format_histogram': {str(t): sum(1 for c, _ in results if c.get('tfmt', 0) == t) for t in (0, 1)},
+                    'translated_time_source': stats['model_time_source'],
                     'stalled_sink_runs': stats['stalled_sink_runs'], 'max_call_ms_while_sink_stalled': stats['max_call_ms_while_sink_stalled'],
                     'violation_kinds': stats['kinds'], 'sanitizer_variant': san})
     chk.samples = [{'config': c, 'header': r[1], 'first_events': r[2][:14]} for c, r in results[:3]]
@@ -369,12 +451,18 @@ def replay(path):
     vlib.gen_src(['async'])
     model = vlib.build_model('async')
     impl = vlib.build_harness('async', 'san' if r.get('sanitizer') else '')
-    cfg = {k: r.get(k, 0) for k in ('mode', 'n', 'per', 'seed', 'perturb', 'sinkdelay', 'stall')}
+    cfg = {k: r.get(k, 0) for k in ('mode', 'n', 'per', 'seed', 'perturb', 'sinkdelay', 'stall', 'tfmt')}
     cfg['tz'] = r.get('tz', '')
     print('recorded:', r.get('kind'), r.get('detail') or r.get('fields'), {k: r.get(k) for k in ('synchronous', 'asynchronous') if k in r})
     for k in range(3):
         rc, hdr, ev, tw, asy, flushes, err = run_one(impl, cfg)
-        diffs = [(p, i, [FIELDS[b] for b in content_diff(cfg['mode'], tw[(p, i)], d)]) for _, p, i, _, d in asy if (p, i) in tw and content_diff(cfg['mode'], tw[(p, i)], d)]
+        cm = 'logger' if cfg['mode'] == 'relog' else ('bare' if cfg['mode'] == 'drain' else cfg['mode'])
+        diffs = [(p, i, [FIELDS[b] for b in content_diff(cm, tw[(p, i)], d, cfg['tfmt'])]) for _, p, i, _, d in asy if (p, i) in tw and content_diff(cm, tw[(p, i)], d, cfg['tfmt'])]
+        if cfg['tfmt']:
+            mt = re.search(r'tcal=(-?\d+)', hdr or '')
+            tds = [(p, i, time_diff(cm, tw[(p, i)], d, int(mt.group(1)) if mt else 0, None)) for _, p, i, _, d in asy if (p, i) in tw]
+            tds = [(p, i, t[0]) for p, i, t in tds if t]
+            print('          rendered time stamps that differ from the message\'s own: %d of %d, first: %s' % (len(tds), len(asy), tds[:1]))
         line = '%d %s %s' % (cfg['n'], ','.join([str(cfg['per'])] * cfg['n']), ' '.join(ev))
         print('re-run %d: rc=%d %s content differences: %s; order: %s; acceptor: %s; off-worker deliveries: %d'
               % (k, rc, hdr, diffs[:2], order_oracles(ev, cfg['n'], cfg['per'])[:2], vlib.run_lines(model, [line], ['trace'])[1],
